@@ -233,6 +233,28 @@ pub fn check(_ctx: &Ctx, input: &Input) -> CaseResult {
             }
         }
     }
+    // with DWARF generation on, walrus's own output (second generation) is a
+    // fixpoint as well: one case in eight carries LLVM-like DWARF with nested DIEs
+    if out.hash % 8 == 3 {
+        let mut dch = crate::ch::Ch::new(&p.bytes[..p.bytes.len().min(64)]);
+        if let Some(with) = crate::dwarf::attach_dwarf_simple(&p.bytes, &mut dch) {
+            let dcfg = wal::Cfg { dwarf: true, ..wal::Cfg::plain() };
+            let gen = |b: &[u8]| -> Option<Vec<u8>> { wal::roundtrip(b, dcfg, false).ok().flatten() };
+            if let Some(g1) = gen(&with) {
+                if let Some(g2) = gen(&g1) {
+                    if let Some(g3) = gen(&g2) {
+                        if g3 != g2 {
+                            return Err(Failure::new(
+                                format!("not-a-fixpoint:dwarf:{}", first_diff(&g2, &g3)),
+                                format!("with DWARF generation on, emit(parse(out2)) != out2 for walrus's own second-generation output ({} vs {} bytes) [{}]", g3.len(), g2.len(), p.origin),
+                            ));
+                        }
+                        out.label("dwarf-fixpoint-compared");
+                    }
+                }
+            }
+        }
+    }
     let secs = raw_sections(&p.bytes).unwrap_or_default();
     let n_custom = secs.iter().filter(|s| s.id == 0).count();
     let d = crate::decode::decode(&p.bytes).ok();
